@@ -27,6 +27,7 @@ META["explanation"] += ' The eyeball poll typestate incl. re-arm pairing (R02.7)
 META["explanation"] += ' R03.8 the close function stores the closed sentinel on every path to its return. Shared: R01.5 (the sentinel is written by close only; every initialiser of the metadata - also a derived Default - starts at a version that is not the sentinel) and R19.8 (no leaked share of the owner counter, else nobody is ever last).'
 META["explanation"] += ' R03.5 / R19.1 treat fallback combinators (unwrap_or_default, unwrap_or_else, or_else, map_or ..) on a failed upgrade as a fresh counter. R01.4e every Ready(Some) of a subscriber poll path (both flavours) is dominated by the poll leaf. R03.9 asserting non-blocking acquisitions (try_read / try_write / try_lock + unwrap, and the Lock helpers built from them) are called from Drop impls only.'
 META["explanation"] += ' Shared with C19: R19.1 (every handle of one observable shares one owner counter).'
+META["explanation"] += " R03.9 an asserting (unwrapped) non-blocking *write* acquisition of the state lock is violated everywhere, also in the last owner's Drop (readers may hold the lock then). R01.4b the ready clause rejects `observed != version` (true after close stored 0)."
 
 
 def run(ctx):
@@ -84,6 +85,7 @@ def run(ctx):
 
     # R03.6 closed => None, never parked ---------------------------------------
     leaf.check_closed_clause(ctx, "R03.6", sentinel)
+    leaf.check_ready_clause(ctx, "R01.4")   # .. and never Some once closed: Ready(Some) only under observed < version (version 0 is never greater)
     from . import c16
     c16.ready_from_leaf(ctx, "R01.4e")   # ... and no poll path answers Some without asking the leaf (a reset subscriber after the end)
     # "always once the last one is gone": a subscriber parked around the close must still be woken / see the sentinel (C02 clauses)
@@ -279,6 +281,14 @@ def r03_9(ctx):
             e = b.expr_of_op(t["args"][0])
             if contains(e, lambda x: x[0] == "call" and ecall_matches(x, r"::try_(read|write|lock)(_owned)?$")):
                 asserting.append((g, blk))
+    # an asserting *write* attempt is wrong even in the last owner's Drop: subscribers may hold read guards at that moment
+    for g, blk in asserting:
+        b_ = g.built
+        t_ = b_.term(blk)
+        e_ = b_.expr_of_op(t_["args"][0])
+        if contains(e_, lambda x: x[0] == "call" and ecall_matches(x, r"::try_write(_owned)?$")):
+            ctx.violated("R03.9", root_fn(F, g), "asserting-write-acquisition", b_.line_at((blk, 10 ** 6)),
+                         "`%s` unwraps a non-blocking *write* acquisition of the state lock: readers (a subscriber inside next / get / a guard from next_ref) can hold the lock when the last owner is dropped, the attempt then fails, Drop panics and the state is never closed" % root_fn(F, g).path)
     names = {g.name for g, _ in asserting if g.raw.get("impl_trait") == "lock::Lock"}
     helpers = {g.key for g, _ in asserting}
     n = 0
